@@ -4,7 +4,7 @@ package contracts
 
 //@ func (*regexp.Regexp).FindSubmatch
 //@ note trusted: FindSubmatch returns nil or one slice per group plus one; the only regexp of the module (radixNumberRe) has two groups
-//@ ensures len(result) == 0 || len(result) == 3
+//@ ensures result == nil || len(result) == 3
 
 //@ func slices.Grow
 //@ note trusted: slices.Grow(s, n) panics for n < 0; otherwise returns a slice with the same length and elements and cap >= len+n
